@@ -121,6 +121,9 @@ def run(tier, replay):
             cases.append({"id": 0, "nfiles": nf, "lines": [rng.choice([0, 1, 3, 150]) for _ in range(nf)], "limit": rng.choice([1, 2, 4]),
                           "sched": [], "free": True, "model_counted": -1})
         # more files than NextLinesCh holds (100), all admitted at once
+        # the periodic serialisation in the middle of a read (interval 1 s), many groups, a slow consumer
+        for n in ([300] if tier == "quick" else [300, 45, 1200]):
+            cases.append({"id": 0, "nfiles": 1, "lines": [n], "limit": 2, "sched": [], "free": True, "interim": True, "model_counted": -1})
         cases.append({"id": 0, "nfiles": 130, "lines": [rng.choice([2, 3, 5]) for _ in range(130)], "limit": 130, "sched": [], "free": True, "model_counted": -1})
         for i, c in enumerate(cases):
             c["id"] = i + 1
